@@ -27,6 +27,7 @@ ASSUMPTIONS = [
     "equations are judged only at periods where every value they read is present in smooth_med (lags before the filter span are not returned; prepend_initial is not used)",
     "cases with a singular observation covariance (harness-side joint Gaussian) are not generated",
     "smoother_unit_root: one exact random walk, flat steady state taken from solve_steady (judged by C05), default diffuse_method; every measurement equation carries a shock with positive std so that the prediction-error covariance is regular",
+    "smoother_shocks_from_data: known anticipated shock values are supplied as ant_<shock> data with shocks_from_data=True; they are part of the smoothed databox and of the re-simulation",
     "re-simulation starts after the maximum lag, from the smoothed values of the first periods, with smoothed shocks fed as unanticipated shocks",
     "tolerance 1e-8 * (1 + max|value|) in the units of the linear(ised) equation",
 ]
@@ -62,7 +63,19 @@ def _filter(m, spec, case, start, deviation, ys):
     levels, lin = _observed(spec, c2, deviation, ys)
     db = kc.input_databox(spec, c2, start, levels)
     span = start >> (start + case["N"] - 1)
-    out = api("kalman_filter", m.kalman_filter, db, span, deviation=deviation, rescale_variance=case["rescale"])
+    kw = {}
+    if case.get("ant"):
+        # known (anticipated) shock values supplied as data
+        import irispie as ir
+        shn = lm.shock_names(spec)
+        for i, t, v in case["ant"]:
+            if shn[i % spec["n"]] and t < case["N"]:
+                name = "ant_" + shn[i % spec["n"]]
+                if name not in db.keys():
+                    db[name] = ir.Series(start=start, values=np.zeros((case["N"], 1)))
+                db[name][start + t] = v
+        kw["shocks_from_data"] = True
+    out = api("kalman_filter", m.kalman_filter, db, span, deviation=deviation, rescale_variance=case["rescale"], **kw)
     return out, levels, lin
 
 
@@ -215,6 +228,16 @@ def _check_unit_root(case):
     return _judge(col, case, spec, m, start, xs, ys)
 
 
+@__import__('hypothesis').strategies.composite
+def _ant_case(draw):
+    st_ = __import__("hypothesis").strategies
+    case = draw(kc.kalman_case(allow_tv_stds=False))
+    n, N = case["spec"]["n"], case["N"]
+    case["ant"] = [list(x) for x in draw(st_.lists(st_.tuples(st_.integers(0, n - 1), st_.integers(0, max(N - 1, 0)),
+                                                              st_.sampled_from([0.5, -0.5, 1.0, -0.3])), min_size=1, max_size=3))]
+    return case
+
+
 def prepare_unit_root(case):
     """Build and solve the unit-root model of a case: (case, spec, model, start, xs, ys) or a label dict."""
     import irispie as ir
@@ -259,5 +282,6 @@ def prepare_unit_root(case):
 
 SUBCHECKS = [
     HypSub("smoother", lambda: kc.kalman_case(allow_tv_stds=False), _check, _classify, budget={"quick": 900, "thorough": 12000}),
+    HypSub("smoother_shocks_from_data", lambda: _ant_case(), _check, _classify, budget={"quick": 400, "thorough": 6000}),
     HypSub("smoother_unit_root", _unit_root_case, _check_unit_root, _classify, budget={"quick": 500, "thorough": 8000}),
 ]
